@@ -293,6 +293,15 @@ fn vp_native_response_body_end_to_end_body() {
             assert!(got == payload, "bytes(): {} of {} bytes delivered, {} body", got.len(), n, name);
             let mut sink = Vec::new(); let copied = open().write_to(&mut sink).unwrap(); cases += 1;
             assert!(sink == payload && copied == n as u64, "write_to(): {} of {} bytes, {} body", sink.len(), n, name);
+            // a writer that accepts only a few bytes per call (a pipe, a socket, a rate-limited sink): nothing is lost
+            for accept in [1usize, 7, 1000] {
+                if accept == 1 && n > 9000 { continue; }
+                struct Short { out: Vec<u8>, accept: usize }
+                impl std::io::Write for Short { fn write(&mut self, b: &[u8]) -> std::io::Result<usize> { let k = b.len().min(self.accept); self.out.extend_from_slice(&b[..k]); Ok(k) } fn flush(&mut self) -> std::io::Result<()> { Ok(()) } }
+                let mut w = Short { out: Vec::new(), accept };
+                let copied = open().write_to(&mut w).unwrap_or_else(|e| panic!("write_to() into a writer taking {} bytes per call, {}-byte {} body: {}", accept, n, name, e)); cases += 1;
+                assert!(w.out == payload && copied == n as u64, "write_to() into a writer taking {} bytes per call: {} of {} bytes arrived (reported {}), {} body", accept, w.out.len(), n, copied, name);
+            }
             // the text helpers read the same payload: lossy decoding of exactly these bytes (the payload is not valid UTF-8), and of a
             // valid UTF-8 rendering of it
             let t = open().text_utf8().unwrap_or_else(|e| panic!("text_utf8() of a {}-byte {} body: {}", n, name, e)); cases += 1;
